@@ -113,6 +113,99 @@ def version_table(src, fn, env):
     return out
 
 
+FN_RE = re.compile(r"\bfn\s+(\w+)\s*(?:<[^>]*>)?\s*\(([^)]*)\)\s*(?:->\s*([^{]+?))?\s*\{")
+
+
+def all_fns(src):
+    """name -> (params text, return type, body text incl. braces) of every fn in the file (first wins)."""
+    out = {}
+    for m in FN_RE.finditer(src):
+        i = m.end() - 1
+        depth, j = 0, i
+        while j < len(src):
+            if src[j] == "{":
+                depth += 1
+            elif src[j] == "}":
+                depth -= 1
+                if depth == 0:
+                    break
+            j += 1
+        out.setdefault(m.group(1), (m.group(2), (m.group(3) or "").strip(), src[i:j + 1]))
+    return out
+
+
+def expr_body(body):
+    """The single expression of a `{ expr }` body, or None if the body has statements."""
+    inner = body.strip()[1:-1].strip()
+    if ";" in inner or "{" in inner or not inner:
+        return None
+    return inner
+
+
+def inline_self_helpers(src, text, rounds=3):
+    """Replace calls `<recv>.helper()` of expression-bodied, argument-less methods by their body
+    (receiver substituted), so that extracting a condition into a private helper does not change
+    what the translator sees."""
+    fns = all_fns(src)
+    for _ in range(rounds):
+        changed = False
+
+        def repl(m):
+            nonlocal changed
+            recv, name = m.group(1), m.group(2)
+            if name not in fns:
+                return m.group(0)
+            params, _ret, body = fns[name]
+            if not re.fullmatch(r"\s*(&\s*(mut\s+)?)?self\s*", params):
+                return m.group(0)
+            e = expr_body(body)
+            if e is None:
+                return m.group(0)
+            changed = True
+            return "(" + re.sub(r"\bself\b", recv, e) + ")"
+
+        text = re.sub(r"\b((?:self|other)(?:\.\w+)*)\.(\w+)\(\)", repl, text)
+        if not changed:
+            break
+    return text
+
+
+def transitive_bodies(src, body, depth=3):
+    """The body plus the bodies of the file's own functions it calls (transitively)."""
+    fns = all_fns(src)
+    seen, out, frontier = set(), [body], [body]
+    for _ in range(depth):
+        nxt = []
+        for b in frontier:
+            for name in re.findall(r"\b(\w+)\s*\(", b):
+                if name in fns and name not in seen:
+                    seen.add(name)
+                    out.append(fns[name][2])
+                    nxt.append(fns[name][2])
+        frontier = nxt
+    return out
+
+
+def shift_operand(src, expr):
+    """Operand x of a `received |= <expr>` statement: `1 << x` directly, or through a helper whose
+    whole body is `1 << param` returning u64 (anything else is reported verbatim, so a cast or a
+    differently typed literal inside a helper still shows up as a change)."""
+    e = re.sub(r"\s+", " ", expr.strip())
+    m = re.fullmatch(r"1 << (\w+)", e)
+    if m:
+        return m.group(1)
+    m = re.fullmatch(r"(?:Self::|self\.)?(\w+)\((\w+)\)", e)
+    if m:
+        fns = all_fns(src)
+        if m.group(1) in fns:
+            params, ret, body = fns[m.group(1)]
+            pm = re.fullmatch(r"\s*(\w+)\s*:\s*u32\s*", params)
+            b = expr_body(body)
+            if pm and ret == "u64" and b is not None and re.sub(r"\s+", " ", b) == "1 << " + pm.group(1):
+                return m.group(2)
+    return e
+
+
 def lean_bytes(xs):
     return "[" + ", ".join(str(x) for x in xs) + "]"
 
@@ -163,7 +256,7 @@ def run(repo):
     n = env[m.group(2)] if m.group(2) in env else int(m.group(2))
     s += "/-- smallest client slot `j` skipped by `if j %s %s { continue }` -/\n" % (m.group(1), m.group(2))
     s += "def SLOT_SKIP_FROM : Nat := %d\n" % reject_from(m.group(1), n, "slot check")
-    shifts = re.findall(r"received\s*\|=\s*1\s*<<\s*(\w+)", body)
+    shifts = [shift_operand(src, e) for e in re.findall(r"received\s*\|=\s*([^;]+);", body)]
     s += "/-- operands of the `received |= 1 << x` statements of parse_server_info, in source order -/\n"
     s += "def SHIFT_OPERANDS : List String := [%s]\n" % ", ".join('"%s"' % x for x in shifts)
     m = re.search(r"received\s*:\s*(u\d+)", struct_body(src, "PartialServerInfo"))
@@ -182,16 +275,16 @@ def run(repo):
     for fn in ("max_clients", "clients_per_packet"):
         tt = version_table(src, fn, env)
         s += "def %s : List (Option Nat) := [%s]\n" % (fn, ", ".join("none" if x is None else "some %d" % x for x in tt))
-    gi = exlib.fn_body(src, "get_info", 0, REL)
-    req_main = re.search(r"info_version\s*==\s*ServerInfoVersion::V6Ex\s*&&\s*self\.received\s*&\s*1\s*==\s*0\s*\{\s*return\s+None", gi) is not None
-    s += "\n/-- does `get_info` start with `if version == V6Ex && received & 1 == 0 { return None; }`? -/\n"
+    gi = inline_self_helpers(src, exlib.fn_body(src, "get_info", 0, REL))
+    req_main = re.search(r"if\s*\(*\s*self\.info\.info_version\s*==\s*ServerInfoVersion::V6Ex\s*&&\s*self\.received\s*&\s*1\s*==\s*0\s*\)*\s*\{\s*return\s+None", gi) is not None
+    s += "\n/-- does `get_info` start with `if version == V6Ex && received & 1 == 0 { return None; }` (directly or through an argument-less helper method)? -/\n"
     s += "def GET_INFO_REQUIRES_MAIN : Bool := %s\n" % ("true" if req_main else "false")
     mg = exlib.fn_body(src, "merge", 0, REL)
-    upd = re.search(r"self\.received\s*(\|=|=)", mg) is not None
-    s += "/-- does `merge` assign to `self.received` at all? (it does not: D10) -/\n"
+    upd = any(re.search(r"\breceived\s*(\|=|\^=|&=|\+=|=(?!=))", b) for b in transitive_bodies(src, mg))
+    s += "/-- does `merge` (or a function of this file it calls) assign to `received`? (it does not: D10) -/\n"
     s += "def MERGE_UPDATES_RECEIVED : Bool := %s\n" % ("true" if upd else "false")
-    s += "\n/-- integer literals of `fn merge`, `fn get_info`, `fn take_info`, `fn parse_count`, `fn parse_token7`, `fn parse_response` -/\n"
-    for fn in ("merge", "get_info", "take_info", "parse_count", "parse_token7", "parse_response", "parse_list5", "parse_list6"):
+    s += "\n/-- integer literals of `fn parse_count`, `fn parse_token7`, `fn parse_response` -/\n"
+    for fn in ("parse_count", "parse_token7", "parse_response", "parse_list5", "parse_list6"):
         b = exlib.fn_body(src, fn, 0, REL)
         s += "def lits_%s : List Nat := %s\n" % (fn, exlib.lean_nat_list(exlib.int_literals(b)))
     s += "\nend Tw.Gen.Browse\n"
